@@ -348,8 +348,9 @@ def _case(seed: int) -> Dict[str, Any]:
             it = [its_t[-1]] if seed % 3 == 0 and not self_cmp else ic
             rc = ctl.ranks()[: 1 + seed % 2] if len(ctl.ranks()) > 1 and seed % 5 == 0 else [ctl.ranks()[0]]
             rtt = rc if set(rc) <= set(tst.ranks()) else [tst.ranks()[0]]
-            for dev in (DeviceType.ALL, DeviceType.CPU, DeviceType.GPU):
-                short = bool(seed % 2) and dev == DeviceType.ALL
+            # the SAME objects and the SAME selection with short and then long names (and the reverse order for every other seed): a call history
+            modes = [(d_, s_) for d_ in (DeviceType.ALL, DeviceType.CPU, DeviceType.GPU) for s_ in (((True, False) if seed % 2 else (False, True)) if d_ != DeviceType.CPU else (False,))]
+            for dev, short in modes:
                 sel = {"control_rank": rc, "test_rank": rtt, "control_iteration": ic, "test_iteration": it, "device": dev.name, "short": short, "self": self_cmp}
                 try:
                     comp = rt.lib(fails, "compare_traces", {**inp, **sel}, TraceDiff.compare_traces, ctl, tst, rc, rtt, ic, it, dev, short)
